@@ -177,7 +177,7 @@ def grid_enum(tier):
 
 
 def subchecks(tier):
-    subs = [Sub("predict_random", predict_case, strategy=strategy, n_quick=3000, n_thorough=40000, shards_quick=4)]
+    subs = [Sub("predict_random", predict_case, strategy=strategy, n_quick=3000, n_thorough=160000, shards_quick=4)]
     subs.append(Sub("predict_grid", predict_case, enum=grid_enum, exhaustive=True, shards_quick=2, shards_thorough=8,
                     desc="every (n, batch_size) pair with n in 1..40 and batch_size in 1..n+3 (940 pairs) x {tensor, tuple} outputs"))
     return subs
